@@ -31,6 +31,12 @@ const CORPUS: &[&str] = &[
     "MOVE x[0] 1\nWAIT\n",
 ];
 
+fn ast_case(ctx: &mut Ctx, text: &str) {
+    let instructions = parsed_instructions(text);
+    let (program, parts) = ast_parts(&instructions);
+    ctx.case(tagged("ast", parts), || run_from_program(&program, &DefaultHandler));
+}
+
 fn all_seqs(len: usize, base: u64, f: &mut impl FnMut(&[u64])) {
     let mut idx = vec![0u64; len];
     loop {
@@ -147,5 +153,21 @@ fn run(ctx: &mut Ctx) {
         let program = parse(&text);
         let input = project_program(&program, &DefaultHandler);
         ctx.case(tagged("random", vec![input]), || run_from_program(&program, &DefaultHandler));
+    }
+
+    // "ast" stream: full AST on the wire, blocks and handler answers derived by the driver (HandlerFromAst)
+    for text in CORPUS {
+        ast_case(ctx, &format!("{HDR}{text}"));
+    }
+    let n_ast = if quick { 3000 } else { 100_000 };
+    let mut rng = ctx.rng(122);
+    for i in 0..n_ast {
+        let cfg = match i % 3 {
+            0 => ProgCfg { nframes: 3, nreg: 2, max_len: 10, rf_pct: 50, cf_pct: 0, bad_permille: 0 },
+            1 => ProgCfg { nframes: 4, nreg: 2, max_len: 14, rf_pct: 50, cf_pct: 15, bad_permille: 4 },
+            _ => ProgCfg { nframes: 5, nreg: 3, max_len: 20, rf_pct: 40, cf_pct: 25, bad_permille: 4 },
+        };
+        let text = ast_program_text(&mut rng, &cfg);
+        ast_case(ctx, &text);
     }
 }
